@@ -43,6 +43,20 @@ fn main() {
         eprintln!("usage: nsim <ID> quick|thorough | nsim replay <file>");
         std::process::exit(2);
     }
+    macro_rules! dispatch {
+        ($id:expr, $call:ident, $($arg:expr),*) => {
+            match $id {
+                "C04" => $call(&props::c04::C04, $($arg),*),
+                "C05" => $call(&props::c05::C05, $($arg),*),
+                "C09" => $call(&props::c09::C09, $($arg),*),
+                "C12" => $call(&props::c12::C12, $($arg),*),
+                other => {
+                    eprintln!("harness error: unknown property `{}`", other);
+                    2
+                }
+            }
+        };
+    }
     let code = if pos[0] == "replay" {
         let text = std::fs::read_to_string(&pos[1]).unwrap_or_else(|e| {
             eprintln!("harness error: cannot read {}: {}", pos[1], e);
@@ -52,13 +66,8 @@ fn main() {
             eprintln!("harness error: {} is not JSON: {}", pos[1], e);
             std::process::exit(2);
         });
-        match v["property"].as_str().unwrap_or("") {
-            "C05" => replay(&props::c05::C05, &v, &mut *out),
-            other => {
-                eprintln!("harness error: unknown property `{}` in replay file", other);
-                2
-            }
-        }
+        let id = v["property"].as_str().unwrap_or("").to_string();
+        dispatch!(id.as_str(), replay, &v, &mut *out)
     } else {
         let tier = match pos[1].as_str() {
             "quick" => Tier::Quick,
@@ -68,13 +77,7 @@ fn main() {
                 std::process::exit(2);
             }
         };
-        match pos[0].as_str() {
-            "C05" => drive(&props::c05::C05, tier, &mut *out),
-            other => {
-                eprintln!("harness error: unknown property `{}`", other);
-                2
-            }
-        }
+        dispatch!(pos[0].as_str(), drive, tier, &mut *out)
     };
     let _ = out.flush();
     std::process::exit(code);
